@@ -14,9 +14,10 @@ import (
 )
 
 type Ctx struct {
-	P    *core.Prog
-	R    *core.Report
-	Tier string
+	noDescend map[*ssa.Function]bool // withCallees does not enter these (leaf producers)
+	P         *core.Prog
+	R         *core.Report
+	Tier      string
 }
 
 type Check struct {
